@@ -69,6 +69,9 @@ func cfgS2(prop string, seed uint64, tier string) *RunCfg {
 	c.Knobs["writers"] = nw
 	c.Slow = slowClasses(r, "handleRequest#0", "handleRequest#1", "server:")
 	c.Knobs["observers"] = r.Intn(3)
+	if prop == "C02" || prop == "C07" {
+		c.Knobs["observers"] = 1 + r.Intn(3)
+	}
 	for w := 0; w < nw; w++ {
 		for i := 0; i < per; i++ {
 			kind := []string{"incr", "incr", "uniq", "gen", "gen", "refs", "select", "select", "bulk", "fail"}[r.Intn(10)]
@@ -306,6 +309,10 @@ func (s *s2) check(commitBase int) {
 		if ct.marker != "" {
 			byMarker[ct.marker] = ct
 		}
+	}
+	if e.Property != "C17" {
+		s.checkOther(commits, byMarker)
+		return
 	}
 	// attribute commits to transactions
 	var order []*concTxn
@@ -579,6 +586,140 @@ func (s *s2) check(commitBase int) {
 }
 
 // canonResults renders results order-independently (select rows as a set).
+// checkOther evaluates, on the concurrent history, the part of C02 / C04 / C06 /
+// C07 that says "after every committed transaction" / "in commit order": the
+// single-writer scenario S1 never has two transactions in flight, and a server
+// that stops evaluating and committing a transaction in one critical section
+// breaks each of these statements, not only serializability (C17).
+func (s *s2) checkOther(commits []*CommitRec, byMarker map[string]*concTxn) {
+	e := s.e
+	sch := e.Sch
+	if len(commits) > 0 {
+		e.Probes["checked_nonempty"]++
+	}
+	e.Probes["concurrent_history_checked"]++
+	markerIn := func(st DBState, m string) bool {
+		for _, r := range st["Root"] {
+			if n := r["name"]; len(n.Set) == 1 && n.Set[0].S == m {
+				return true
+			}
+		}
+		return false
+	}
+	switch e.Property {
+	case "C06":
+		for k, c := range commits {
+			if len(dupIndexTuples(sch, c.Before)) > 0 {
+				e.Abort("duplicates stored earlier in this run")
+				return
+			}
+			if d := dupIndexTuples(sch, c.After); len(d) > 0 {
+				key := "concurrent"
+				if dk := (&s1{e: e}).dupKey(&TxnOutcome{Before: c.Before, After: c.After}); dk != "plain" {
+					key = dk
+				}
+				e.ViolateK("C06.duplicate-stored", key, "with %d writers in flight, after commit %d: %s\ncommit diff:\n%s", len(s.writers), k+1, strings.Join(d, "; "), DiffStates(c.Before, c.After, sch.TableNames, nil))
+				return
+			}
+		}
+	case "C04":
+		for k, c := range commits {
+			if len(integrityProblems(sch, c.Before)) > 0 {
+				e.Abort("database state already inconsistent (known finding earlier in this run)")
+				return
+			}
+			if ps := integrityProblems(sch, c.After); len(ps) > 0 {
+				tag := "concurrent:"
+				if ct := byMarker[markerOf(c.Before, c.After)]; ct != nil {
+					if ref := RefTransact(sch, c.Before, ct.ops, nil); ref.GCd > 0 {
+						tag = "gc-chain:"
+					}
+				}
+				e.ViolateK("C04.integrity", tag+integrityKey(sch, ps[0]), "with %d writers in flight, after commit %d: %s\ncommit diff:\n%s", len(s.writers), k+1, strings.Join(ps, "; "), DiffStates(c.Before, c.After, sch.TableNames, nil))
+				return
+			}
+		}
+	case "C02":
+		final, _, ok := e.SnapshotDB(s.srv)
+		for _, ct := range s.txns {
+			if ct.call == nil || !ct.failed || ct.marker == "" {
+				continue
+			}
+			e.Probes["c02_failed_txn_checked"]++
+			for k, c := range commits {
+				if markerIn(c.After, ct.marker) && !markerIn(c.Before, ct.marker) {
+					e.ViolateK("C02.committed", "concurrent", "transaction %d (%s) was answered with an error but commit %d stores its rows\nreply: %s %s", ct.idx, ct.kind, k+1, ct.call.Result, ct.call.ErrorStr)
+					return
+				}
+			}
+			if ok && markerIn(final, ct.marker) {
+				e.ViolateK("C02.rows-changed", "concurrent", "transaction %d (%s) was answered with an error but the database holds its rows\nreply: %s %s", ct.idx, ct.kind, ct.call.Result, ct.call.ErrorStr)
+				return
+			}
+			for _, o := range s.obs {
+				for _, n := range o.peer.Notes[o.seen:] {
+					if n.Method != "echo" && strings.Contains(string(n.Params[len(n.Params)-1]), `"`+ct.marker+`"`) {
+						e.ViolateK("C02.notified", "concurrent", "transaction %d (%s) was answered with an error but monitor %s was told about its rows: %s\nreply: %s %s", ct.idx, ct.kind, o.spec.Owner, trimStr(joinRaw(n.Params), 800), ct.call.Result, ct.call.ErrorStr)
+						return
+					}
+				}
+			}
+		}
+	case "C07":
+		var real []*CommitRec
+		for _, c := range commits {
+			if DiffStates(c.Before, c.After, sch.TableNames, nil) != "" {
+				real = append(real, c)
+			}
+		}
+		for _, c := range real {
+			if len(integrityProblems(sch, c.After)) > 0 {
+				e.Abort("database violates referential integrity: C04's concern")
+				return
+			}
+		}
+		for _, o := range s.obs {
+			rep := o.replica
+			k := 0
+			for _, n := range o.peer.Notes[o.seen:] {
+				if n.Method == "echo" {
+					continue
+				}
+				d, err := DecodeTableUpdates(sch, n.Params[len(n.Params)-1], o.spec.Method != "monitor")
+				if err != nil {
+					e.ViolateK("C07.decode", "concurrent", "observer %s: %v", o.spec.Owner, err)
+					return
+				}
+				// skip commits with no selected change for this monitor
+				for k < len(real) && len(o.req.Expected(real[k].Before, real[k].After)) == 0 {
+					k++
+				}
+				if k >= len(real) {
+					e.ViolateK("C07.count", "concurrent", "observer %s (%s) received more notifications than there are commits with a selected change (%d): %s", o.spec.Owner, o.spec.Method, len(real), trimStr(joinRaw(n.Params), 800))
+					return
+				}
+				if err := o.req.Apply(sch, rep, d); err != nil {
+					e.ViolateK("C07.order", "concurrent", "with %d writers in flight, observer %s (%s) cannot apply notification %d in arrival order: %v\n%s", len(s.writers), o.spec.Owner, o.spec.Method, k+1, err, trimStr(joinRaw(n.Params), 800))
+					return
+				}
+				if diff := DiffStates(o.req.Project(real[k].After), rep, sch.TableNames, nil); diff != "" {
+					e.ViolateK("C07.order", "concurrent", "with %d writers in flight, observer %s (%s): notifications applied in arrival order do not reproduce the database after commit %d (database vs replica):\n%s", len(s.writers), o.spec.Owner, o.spec.Method, k+1, diff)
+					return
+				}
+				k++
+			}
+			for k < len(real) && len(o.req.Expected(real[k].Before, real[k].After)) == 0 {
+				k++
+			}
+			if k != len(real) {
+				e.ViolateK("C07.count", "concurrent", "observer %s (%s) was notified of %d of %d commits with a selected change", o.spec.Owner, o.spec.Method, k, len(real))
+				return
+			}
+			e.Probes["c07_concurrent_observer_checked"]++
+		}
+	}
+}
+
 func canonResults(sch *Schema, ops []Op, res []ActRes) string {
 	var parts []string
 	for i, r := range res {
